@@ -12,12 +12,12 @@ CONSTANTS
   Pos <- FPos
   Prefix = ""
   Chars <- MCChars
-  MCKinds = {"checker", "select"}
+  MCKinds = {"checker", "select", "nest"}
   ErrIds = {"E_DENIED", "E_CUSTOM1"}
   MaxSteps = 2
   HostileSteps = 1
   AllScopes = TRUE
 INVARIANTS FTypeOK
-PROPERTIES RejectedNeverReachesBackend ListingFiltered ErrorIsPolicyError AllowedIsTransparent SelectErrorKinds ConsultationsExact FailedListingIsPrefix
+PROPERTIES RejectedNeverReachesBackend ListingFiltered ErrorIsPolicyError AllowedIsTransparent SelectErrorKinds ConsultationsExact FailedListingIsPrefix NestIsConjunction NestOfOne
 VIEW FView
 CHECK_DEADLOCK FALSE
